@@ -199,7 +199,7 @@ fn run_cut(sc: &Scenario, p: usize, seed: u64) -> (RunObs, usize, Vec<(usize, us
             Fault::Garbage(g) => server.send(g),
             Fault::Unbind => {
                 let mut l = main.clone();
-                let u = tokio::spawn(async move {
+                let mut fut = Box::pin(async move {
                     match world::watchdog(Caught::new(l.unbind())).await {
                         Ok(Ok(Ok(()))) => "Ok".to_string(),
                         Ok(Ok(Err(e))) => format!("Err({})", world::err_class(&e)),
@@ -207,6 +207,16 @@ fn run_cut(sc: &Scenario, p: usize, seed: u64) -> (RunObs, usize, Vec<(usize, us
                         Err(()) => "Hung".into(),
                     }
                 });
+                if !sc2.barrier {
+                    // without a pause: the unbind request is queued in the same instant the response bytes
+                    // become readable, so the driver finds both ready and picks either first
+                    std::future::poll_fn(|cx| {
+                        let _ = std::future::Future::poll(fut.as_mut(), cx);
+                        std::task::Poll::Ready(())
+                    })
+                    .await;
+                }
+                let u = tokio::spawn(fut);
                 // RFC 4511: the server closes the connection on UnbindRequest
                 while let Some(w) = server.request().await {
                     if let Ok(m) = w.msg {
@@ -283,8 +293,10 @@ fn check_cut(sc: &Scenario, p: usize, obs: &RunObs, ends: &[(usize, usize, usize
                     }
                 }
                 Obs::Err(_) => {
-                    if delivered && sc.barrier {
-                        rep.violation(format!("C04:single:fully-delivered-response-lost-after:{}", fk), format!("op {} cut {} (response complete and a quiescence barrier passed before the fault): {:?}", op, p, got), replay.clone());
+                    // (the response had arrived in full before the fault, with or without a pause in between:
+                    // bytes that precede the fault on the transport are read before it)
+                    if delivered {
+                        rep.violation(format!("C04:single:fully-delivered-response-lost-after:{}", fk), format!("op {} cut {} (response complete before the fault; quiescence barrier in between: {}): {:?}", op, p, sc.barrier, got), replay.clone());
                     }
                 }
                 _ => {}
@@ -305,7 +317,7 @@ fn check_cut(sc: &Scenario, p: usize, obs: &RunObs, ends: &[(usize, usize, usize
                 if items.len() > complete_items {
                     rep.violation("C04:stream:returned-an-item-not-completely-sent", format!("op {} cut {}: {} items returned, {} complete", op, p, items.len(), complete_items), replay.clone());
                 }
-                if sc.barrier && items.len() < complete_items {
+                if items.len() < complete_items {
                     rep.violation(format!("C04:stream:fully-delivered-items-lost-after:{}", fk), format!("op {} cut {}: {} items returned, {} complete before the fault", op, p, items.len(), complete_items), replay.clone());
                 }
                 match end.as_str() {
@@ -317,7 +329,7 @@ fn check_cut(sc: &Scenario, p: usize, obs: &RunObs, ends: &[(usize, usize, usize
                         }
                     }
                     "Err" => {
-                        if done_complete && sc.barrier {
+                        if done_complete {
                             rep.violation(format!("C04:stream:fully-delivered-Done-lost-after:{}", fk), format!("op {} cut {}", op, p), replay.clone());
                         }
                         if *rc != 88 {
@@ -845,6 +857,10 @@ pub fn malformed_results(ctx: &Ctx) -> Report {
             } else if s.contains("Hung") && obs.driver_panic.is_none() {
                 rep.violation(format!("C04:operation-never-completes-after-an-undecodable-response:{}", who), format!("frame {} ({}): {} -> {}; driver {}", ber::hex(&input[..input.len().min(80)]), label, who, s, obs.driver), replay.clone());
             }
+        }
+        let complete = ber::outer_complete(&input).map(|t| t == input.len()).unwrap_or(false);
+        if complete && crate::lanes::c11::envelope_class(&input) == "not-an-envelope" && obs.driver_panic.is_none() && !obs.bind_resolved_before_anything_else {
+            rep.violation("C04:pending-operation-keeps-waiting-after-an-undecodable-frame", format!("frame {} ({}): complete by its own outer length and not an LDAPMessage, yet the pending bind was still waiting at the next quiescence barrier (it resolved only when more input or the end of the connection arrived: {})", ber::hex(&input[..input.len().min(80)]), label, obs.bind), replay.clone());
         }
         rep.count(&format!("bind_{}", obs.bind.split('(').next().unwrap_or("?")), 1);
         if i < 2 {
